@@ -2,7 +2,7 @@
 import base64
 from ..ref import cell as RC
 from . import bocfam
-from .common import to_lib, lib_canon, exc_name
+from .common import to_lib, lib_canon, exc_name, user_recursion_limit
 
 ID = 'C03'
 TITLE = 'Bag-of-cells serialisation round-trips for every DAG and option set'
@@ -66,11 +66,12 @@ def case_dag(rec, name, opt_i, tier=None):
     want = RC.canon(rc)
     big = name.startswith('cells:6')
     try:
-        root = to_lib(rc)
-        data = root.to_boc(**opts)
+        with user_recursion_limit():
+            root = to_lib(rc)
+            data = root.to_boc(**opts)
         rec.trans()
     except Exception as e:
-        rec.violation(f'serialize:{on}', f'{name}: to_boc({on}) raised {exc_name(e)}: {e}', 'case_dag', args)
+        rec.violation(f'serialize:{on}', f'{name}: to_boc({on}) raised {exc_name(e)}: {str(e)[:200]}', 'case_dag', args)
         rec.outcome('raise-ser')
         return
     forms = {'bytes': data}
@@ -85,21 +86,22 @@ def case_dag(rec, name, opt_i, tier=None):
             if big and entry != 'Cell':
                 continue
             try:
-                if entry == 'Cell':
-                    got = Cell.one_from_boc(form)
-                    roots = Cell.from_boc(form) if not big else [got]
-                    if len(roots) != 1 or roots[0].hash != got.hash:
-                        rec.violation('roots', f'{name}/{on}: from_boc returns {len(roots)} roots', 'case_dag', args)
-                elif entry == 'Slice':
-                    s = Slice.one_from_boc(form)
-                    if s.remaining_bits != len(rc.bits) or s.remaining_refs != len(rc.refs):
-                        rec.violation(f'slice-entry:{on}', f'{name}: Slice.one_from_boc yields {s.remaining_bits} bits/{s.remaining_refs} refs', 'case_dag', args)
-                    got = s.to_cell()
-                else:
-                    got = Builder.one_from_boc(form).end_cell()
+                with user_recursion_limit():
+                    if entry == 'Cell':
+                        got = Cell.one_from_boc(form)
+                        roots = Cell.from_boc(form) if not big else [got]
+                        if len(roots) != 1 or roots[0].hash != got.hash:
+                            rec.violation('roots', f'{name}/{on}: from_boc returns {len(roots)} roots', 'case_dag', args)
+                    elif entry == 'Slice':
+                        s = Slice.one_from_boc(form)
+                        if s.remaining_bits != len(rc.bits) or s.remaining_refs != len(rc.refs):
+                            rec.violation(f'slice-entry:{on}', f'{name}: Slice.one_from_boc yields {s.remaining_bits} bits/{s.remaining_refs} refs', 'case_dag', args)
+                        got = s.to_cell()
+                    else:
+                        got = Builder.one_from_boc(form).end_cell()
                 rec.trans()
             except Exception as e:
-                rec.violation(f'parse:{on}:{enc}:{entry}', f'{name}: parsing own {on} output as {enc} via {entry} raised {exc_name(e)}: {e}', 'case_dag', args)
+                rec.violation(f'parse:{on}:{enc}:{entry}', f'{name}: parsing own {on} output as {enc} via {entry} raised {exc_name(e)}: {str(e)[:200]}', 'case_dag', args)
                 rec.outcome('raise-parse')
                 continue
             rec.trace()
